@@ -115,11 +115,27 @@ theorem opLevel_le (k : Kind) : opLevel k ≤ 8 := by
   repeat' split
   all_goals omega
 
-theorem Ex.tree_notCaught (e : Ex) : notCaught e.tree := by
-  induction e with
-  | atom t => rfl
-  | paren lp e rp ih => exact ih
-  | bin l op r _ _ => rfl
+theorem Ex.tree_notCaught : (e : Ex) → notCaught e.tree
+  | .atom _ => rfl
+  | .paren _ e _ => by simp only [Ex.tree]; exact Ex.tree_notCaught e
+  | .bin .. => rfl
+  | .pre .. => rfl
+  | .post .. => rfl
+  | .dot .. => rfl
+  | .call .. => rfl
+  | .index .. => rfl
+  | .set .. => rfl
+
+theorem Ex.tree_isSome : (e : Ex) → e.tree.isNone = false
+  | .atom _ => rfl
+  | .paren _ e _ => by simp only [Ex.tree]; exact Ex.tree_isSome e
+  | .bin .. => rfl
+  | .pre .. => rfl
+  | .post .. => rfl
+  | .dot .. => rfl
+  | .call .. => rfl
+  | .index .. => rfl
+  | .set .. => rfl
 
 /-! ## the fold -/
 
@@ -214,111 +230,523 @@ theorem p2_bin (l r : Ex) (op : Tok) (L : Nat) (h1 : 1 ≤ L) (h8 : L ≤ 8) (ho
   · simpa [Ex.toks, List.append_assoc] using hp
   · rw [hf]; rfl
 
-/-! ## primaries -/
+/-- every primary is an expression of every level -/
+theorem lift_levels (e : Ex) (h0 : P1 e 0) : ∀ L, L ≤ 8 → P1 e L ∧ (1 ≤ L → P2 e L)
+  | 0, _ => ⟨h0, by omega⟩
+  | L+1, h8 =>
+    have ih := lift_levels e h0 L (by omega)
+    have h2 := p2_of_lower e (L+1) (by omega) h8 ih.1
+    ⟨p1_of_p2 _ _ (by omega) h8 h2, fun _ => h2⟩
+
+/-! ## token tables -/
 
 theorem ident_table : ∀ x ∈ identKinds, x ≠ Kind.OBracket ∧ x ≠ Kind.Comment ∧ x ∉ unaryPre := by decide +kernel
 theorem literal_table : ∀ x ∈ literalKinds, x ≠ Kind.OBracket ∧ x ≠ Kind.Comment ∧ x ∉ unaryPre ∧ x ∉ identKinds := by
   decide +kernel
+theorem unaryPre_table : ∀ x ∈ unaryPre, x ≠ Kind.OBracket ∧ x ≠ Kind.Comment := by decide +kernel
+theorem postKinds_table : ∀ x ∈ postKinds, x ∉ badD ∧ x ≠ Kind.Comment := by decide +kernel
+theorem dotKinds_table : ∀ x ∈ dotKinds, x ∉ badE ∧ x ≠ Kind.Comment := by decide +kernel
+theorem badD_bad0 : ∀ x ∈ badD, x ∈ bad 0 := by decide +kernel
+theorem badE_badD : ∀ x ∈ badE, x ∈ badD := by decide +kernel
+theorem postKinds_bad0 : ∀ x ∈ postKinds, x ∈ bad 0 := by decide +kernel
+theorem dotKinds_badD : ∀ x ∈ dotKinds, x ∈ badD := by decide +kernel
+theorem closer_table : ∀ x ∈ [Kind.CBracket, Kind.CSqrBracket, Kind.Comma], x ∉ bad 8 := by decide +kernel
+
 theorem atomCont_bad (L : Nat) : ∀ x ∈ atomCont, x ∈ bad L := by
   intro x hx
   simp only [bad, List.mem_cons, List.mem_append]
   exact Or.inr (Or.inl hx)
 
-theorem fails_bracket (t : Tok) (k : List Tok) (h1 : t.kind ≠ Kind.OBracket) (h2 : t.kind ≠ Kind.Comment) :
-    Fails gBracketClosure (t :: k) :=
-  Fails.map (Fails.seqL (pre := []) ParsesList.nil (Fails.tok h1 h2))
+theorem Stop.stopD {k : List Tok} (h : Stop 0 k) : StopD k := fun t r e hb => h t r e (badD_bad0 _ hb)
+theorem StopD.stopE {k : List Tok} (h : StopD k) : StopE k := fun t r e hb => h t r e (badE_badD _ hb)
 
-theorem fails_unaryPre (t : Tok) (k : List Tok) (h1 : t.kind ∉ unaryPre) (h2 : t.kind ≠ Kind.Comment) :
-    Fails gUnaryPre (t :: k) :=
-  Fails.map (Fails.seqL (pre := []) ParsesList.nil (Fails.toks h1 h2))
+theorem StopD.fails_toks {k : List Tok} (h : StopD k) (ks : List Kind) (hks : ∀ x ∈ ks, x ∈ badD) : Fails (toks ks) k := by
+  cases k with
+  | nil => exact Fails.toks_nil
+  | cons t r =>
+    have hb := h t r rfl
+    exact Fails.toks (fun hin => hb (hks _ hin)) (fun hc => hb (by rw [hc]; exact List.mem_cons_self))
+
+theorem StopE.fails_tok {k : List Tok} (h : StopE k) (x : Kind) (hx : x ∈ badE) : Fails (.tok x) k := by
+  cases k with
+  | nil => exact Fails.tok_nil
+  | cons t r =>
+    have hb := h t r rfl
+    exact Fails.tok (fun e => hb (e ▸ hx)) (fun hc => hb (by rw [hc]; exact List.mem_cons_self))
+
+theorem stop_of_kind (L : Nat) (t : Tok) (r : List Tok) (h : t.kind ∉ bad L) : Stop L (t :: r) := by
+  intro t' r' e
+  cases e
+  exact h
+
+theorem stopD_of_kind (t : Tok) (r : List Tok) (h : t.kind ∉ badD) : StopD (t :: r) := by
+  intro t' r' e
+  cases e
+  exact h
+
+theorem stopE_of_kind (t : Tok) (r : List Tok) (h : t.kind ∉ badE) : StopE (t :: r) := by
+  intro t' r' e
+  cases e
+  exact h
+
+/-- `)`, `]` and `,` end an expression of every level -/
+theorem stop8_closer (t : Tok) (r : List Tok) (h : t.kind ∈ [Kind.CBracket, Kind.CSqrBracket, Kind.Comma]) : Stop 8 (t :: r) :=
+  stop_of_kind 8 t r (closer_table _ h)
+
+theorem stop_le {L : Nat} (h8 : L ≤ 8) {k : List Tok} (h : Stop 8 k) : Stop L k := by
+  have : ∀ n, n + L ≤ 8 → Stop (L + n) k → Stop L k := by
+    intro n
+    induction n with
+    | zero => intro _ h; exact h
+    | succ n ih => intro hn h; exact ih (by omega) (Stop.mono (L := L + n) h)
+  exact this (8 - L) (by omega) (by rw [show L + (8 - L) = 8 by omega]; exact h)
+
+/-! ## failing alternatives of `parse_primary`, all AT the first token -/
+
+theorem failsAt_bracket (t : Tok) (k : List Tok) (h1 : t.kind ≠ Kind.OBracket) (h2 : t.kind ≠ Kind.Comment) :
+    FailsAt gBracketClosure (t :: k) :=
+  FailsAt.map (FailsAt.seqL (FailsAt.tok h1 h2))
+
+theorem failsAt_unaryPre (t : Tok) (k : List Tok) (h1 : t.kind ∉ unaryPre) (h2 : t.kind ≠ Kind.Comment) :
+    FailsAt gUnaryPre (t :: k) :=
+  FailsAt.map (FailsAt.seqL (FailsAt.toks (by decide) h1 h2))
+
+theorem failsAt_identifier (t : Tok) (k : List Tok) (h : t.kind ∉ identKinds) (hc : t.kind ≠ Kind.Comment) :
+    FailsAt (.ref nIdentifier) (t :: k) :=
+  FailsAt.ref (n := nIdentifier) (FailsAt.map (fn := terminal) (FailsAt.toks (by decide) h hc))
+
+theorem failsAt_dotOp (t : Tok) (k : List Tok) (h : t.kind ∉ identKinds) (hc : t.kind ≠ Kind.Comment) :
+    FailsAt gDotOp (t :: k) := by
+  have hid := failsAt_identifier t k h hc
+  have hmc : FailsAt (.ref nMethodCall) (t :: k) :=
+    FailsAt.ref (n := nMethodCall) (FailsAt.memo (c := 2) (FailsAt.map (FailsAt.seqL hid)))
+  have haa : FailsAt gArrayAccess (t :: k) := FailsAt.map (FailsAt.seqL hid)
+  exact FailsAt.altL (gs := [.ref nMethodCall, gArrayAccess, .ref nIdentifier]) (by simp) (by
+    intro a ha
+    simp only [List.mem_cons, List.not_mem_nil, or_false] at ha
+    rcases ha with rfl | rfl | rfl
+    · exact hmc
+    · exact haa
+    · exact hid)
+
+theorem failsAt_dotOps (t : Tok) (k : List Tok) (h : t.kind ∉ identKinds) (hc : t.kind ≠ Kind.Comment) :
+    FailsAt (.ref nDotOps) (t :: k) :=
+  FailsAt.ref (n := nDotOps) (FailsAt.map (FailsAt.seq1 (failsAt_dotOp t k h hc)))
+
+theorem failsAt_unaryPost (t : Tok) (k : List Tok) (h : t.kind ∉ identKinds) (hc : t.kind ≠ Kind.Comment) :
+    FailsAt gUnaryPost (t :: k) :=
+  FailsAt.map (FailsAt.seqL (failsAt_dotOps t k h hc))
+
+theorem failsAt_literalBasic (t : Tok) (k : List Tok) (h : t.kind ∉ literalKinds) (hc : t.kind ≠ Kind.Comment) :
+    FailsAt (.ref nLiteralBasic) (t :: k) :=
+  FailsAt.ref (n := nLiteralBasic) (FailsAt.map (fn := terminal) (FailsAt.toks (by decide) h hc))
+
+theorem failsAt_literalSet (t : Tok) (k : List Tok) (h : t.kind ≠ Kind.OSqrBracket) (hc : t.kind ≠ Kind.Comment) :
+    FailsAt gLiteralSet (t :: k) :=
+  FailsAt.map (FailsAt.seqL (FailsAt.tok h hc))
+
+/-- the kinds a primary can start with -/
+def startKinds : List Kind := Kind.Comment :: Kind.OBracket :: Kind.OSqrBracket :: (identKinds ++ unaryPre ++ literalKinds)
+
+theorem failsAt_primary (t : Tok) (k : List Tok) (h : t.kind ∉ startKinds) : FailsAt (.ref nPrimary) (t :: k) := by
+  simp only [startKinds, List.mem_cons, List.mem_append, not_or] at h
+  obtain ⟨hc, hb, hs, ⟨hi, hu⟩, hl⟩ := h
+  apply FailsAt.ref (n := nPrimary)
+  apply FailsAt.memo (c := 0)
+  exact FailsAt.altL (gs := [gBracketClosure, .alt gUnaryPre gUnaryPost, .ref nDotOps, gLiterals]) (by simp) (by
+    intro a ha
+    simp only [List.mem_cons, List.not_mem_nil, or_false] at ha
+    rcases ha with rfl | rfl | rfl | rfl
+    · exact failsAt_bracket t k hb hc
+    · exact FailsAt.alt (failsAt_unaryPre t k hu hc) (failsAt_unaryPost t k hi hc)
+    · exact failsAt_dotOps t k hi hc
+    · exact FailsAt.alt (failsAt_literalBasic t k hl hc) (failsAt_literalSet t k hs hc))
+
+theorem failsAt_opnd (L : Nat) (h1 : 1 ≤ L) (h8 : L ≤ 8) {ts : List Tok}
+    (h : FailsAt (lvG (L-1)) ts) : FailsAt (lvOpnd L) ts := by
+  have : L = 1 ∨ L = 2 ∨ L = 3 ∨ L = 4 ∨ L = 5 ∨ L = 6 ∨ L = 7 ∨ L = 8 := by omega
+  rcases this with h' | h' | h' | h' | h' | h' | h' | h' <;> subst h'
+  · exact h
+  · exact h
+  · exact h
+  · exact h
+  · exact h
+  · exact h
+  · exact FailsAt.ref (n := nCompare) h
+  · exact h
+
+theorem failsAt_level (t : Tok) (k : List Tok) (h : t.kind ∉ startKinds) : ∀ L, L ≤ 8 → FailsAt (lvG L) (t :: k)
+  | 0, _ => failsAt_primary t k h
+  | L+1, h8 => FailsAt.map (FailsAt.seq1 (failsAt_opnd (L+1) (by omega) h8 (failsAt_level t k h L (by omega))))
+
+theorem failsAt_expr (t : Tok) (k : List Tok) (h : t.kind ∉ startKinds) : FailsAt (.ref nExpr) (t :: k) :=
+  FailsAt.ref (n := nExpr) (FailsAt.memo (c := 1) (failsAt_level t k h 8 (Nat.le_refl 8)))
+
+def closerOK (t : Tok) : Prop := t.kind = Kind.CBracket ∨ t.kind = Kind.CSqrBracket
+
+theorem closer_noStart : ∀ x ∈ [Kind.CBracket, Kind.CSqrBracket], x ∉ startKinds ∧ x ≠ Kind.Comma ∧ x ≠ Kind.Comment := by decide +kernel
+
+theorem closerOK.mem {t : Tok} (h : closerOK t) : t.kind ∈ [Kind.CBracket, Kind.CSqrBracket] := by
+  rcases h with h | h <;> rw [h] <;> decide
+
+theorem closerOK.stop {t : Tok} (h : closerOK t) (k : List Tok) : Stop 8 (t :: k) :=
+  stop8_closer t k (by rcases h with h | h <;> rw [h] <;> decide)
+
+/-! ## comma-separated lists (`parse_separated_list_w_context` and its recursive part) -/
+
+/-- what the round trip says about a list `as` whose items are parsed by `item` at level `L`:
+    before a closing token the recursive part (on a non-empty list) and the whole list parser
+    return exactly the items' trees, consume exactly the list and take NO recovery branch -/
+def ArgsOK (as : Args) (L : Nat) (item : G) (rec : Nat) : Prop :=
+  as.WF L → ∀ (c : Tok) (k : List Tok), closerOK c →
+    (as.nonEmpty = true → Parses (.ref rec) (as.toks ++ c :: k) (c :: k) (Tree.list as.trees)) ∧
+    Parses (sepListCtx item rec) (as.toks ++ c :: k) (c :: k) (Tree.list as.trees)
+
+def sepCtxFn (v : Tree) : Tree :=
+  let first := v.nth 0
+  if first.isNone then Tree.list []
+  else
+    let tl := v.nth 1
+    Tree.list (first :: (if tl.kind == "#seq" then (tl.nth 1).kids else []))
+
+def sepRecFn (v : Tree) : Tree :=
+  let x := v.nth 0
+  let tl := v.nth 1
+  Tree.list ((if x.isNone then [] else [x]) ++ (if tl.kind == "#seq" then (tl.nth 1).kids else []))
+
+theorem sepListCtx_def (item : G) (rec : Nat) : sepListCtx item rec =
+    .map sepCtxFn (.dep (.recover .silentAt item) Tree.isSome (.ifTok [Kind.Comma] (.ref rec) (.eps (Tree.list [])))) := rfl
+
+theorem sepListRec_def (item : G) (rec : Nat) : sepListRec item rec =
+    .map sepRecFn (.seq (.ifEof (.tok Kind.Comma) (.recover .span item)) (.ifTok [Kind.Comma] (.ref rec) (.eps (Tree.list [])))) := rfl
+
+theorem sepCtxFn_none : sepCtxFn (Tree.seq [Tree.none, Tree.none]) = Tree.list [] := rfl
+
+theorem sepCtxFn_end (x : Tree) (h : x.isNone = false) : sepCtxFn (Tree.seq [x, Tree.list []]) = Tree.list [x] := by
+  simp [sepCtxFn, Tree.nth, Tree.seq, Tree.kids, h, Tree.list, Tree.kind]
+
+theorem sepCtxFn_more (x cm : Tree) (l : List Tree) (h : x.isNone = false) :
+    sepCtxFn (Tree.seq [x, Tree.seq [cm, Tree.list l]]) = Tree.list (x :: l) := by
+  simp [sepCtxFn, Tree.nth, Tree.seq, Tree.kids, h, Tree.list, Tree.kind]
+
+theorem sepRecFn_end (x : Tree) (h : x.isNone = false) : sepRecFn (Tree.seq [x, Tree.list []]) = Tree.list [x] := by
+  simp [sepRecFn, Tree.nth, Tree.seq, Tree.kids, h, Tree.list, Tree.kind]
+
+theorem sepRecFn_more (x cm : Tree) (l : List Tree) (h : x.isNone = false) :
+    sepRecFn (Tree.seq [x, Tree.seq [cm, Tree.list l]]) = Tree.list (x :: l) := by
+  simp [sepRecFn, Tree.nth, Tree.seq, Tree.kids, h, Tree.list, Tree.kind]
+
+/-- nothing follows the item: the `ifTok` after an item sees the closing token -/
+theorem sep_end (rec : Nat) (c : Tok) (k : List Tok) (hc : closerOK c) :
+    Parses (.ifTok [Kind.Comma] (.ref rec) (.eps (Tree.list []))) (c :: k) (c :: k) (Tree.list []) := by
+  have ⟨_, h1, h2⟩ := closer_noStart _ hc.mem
+  exact Parses.ifTok_miss (firstReal_cons h2) (by simp [h1]) Parses.eps
+
+/-- a comma follows the item: the recursive part takes over -/
+theorem sep_more (rec : Nat) (cm : Tok) (ts r : List Tok) (v : Tree) (hcm : cm.kind = Kind.Comma)
+    (h : Parses (.ref rec) ts r v) :
+    Parses (.ifTok [Kind.Comma] (.ref rec) (.eps (Tree.list []))) (cm :: ts) r (Tree.seq [.leaf cm, v]) :=
+  Parses.ifTok_hit (firstReal_cons (by rw [hcm]; decide)) (by simp [hcm]) h
+
+theorem args_nil (L : Nat) (item : G) (rec : Nat)
+    (hfail : ∀ (c : Tok) (k : List Tok), closerOK c → FailsAt item (c :: k)) : ArgsOK .nil L item rec := by
+  intro _ c k hc
+  refine ⟨(by intro h; cases h), ?_⟩
+  have h := Parses.dep_no (b := .ifTok [Kind.Comma] (.ref rec) (.eps (Tree.list []))) (test := Tree.isSome)
+    (Parses.recover_silent (hfail c k hc)) rfl
+  have := Parses.map (fn := sepCtxFn) h
+  rw [sepCtxFn_none] at this
+  exact this
+
+theorem cons_of_append (a : List Tok) (c : Tok) (k : List Tok) : ∃ t r, a ++ c :: k = t :: r := by
+  cases a with
+  | nil => exact ⟨c, k, rfl⟩
+  | cons t r => exact ⟨t, r ++ c :: k, rfl⟩
+
+theorem args_one (e : Ex) (L : Nat) (item : G) (rec : Nat) (hΓ : Γ rec = sepListRec item rec)
+    (hitem : e.WF L → ∀ k, Stop 8 k → Parses item (e.toks ++ k) k e.tree) : ArgsOK (.one e) L item rec := by
+  intro hwf c k hc
+  have hi := hitem hwf (c :: k) (hc.stop k)
+  have hs := e.tree_isSome
+  show _ ∧ Parses _ (e.toks ++ c :: k) (c :: k) (Tree.list [e.tree])
+  constructor
+  · intro _
+    show Parses _ (e.toks ++ c :: k) (c :: k) (Tree.list [e.tree])
+    apply Parses.ref
+    rw [hΓ, sepListRec_def]
+    have h1 : Parses (.ifEof (.tok Kind.Comma) (.recover .span item)) (e.toks ++ c :: k) (c :: k) e.tree := by
+      obtain ⟨t, r, ht⟩ := cons_of_append e.toks c k
+      rw [ht] at hi ⊢
+      exact Parses.ifEof_cons (Parses.recover hi)
+    have := Parses.map (fn := sepRecFn) (Parses.seq h1 (sep_end rec c k hc))
+    rw [sepRecFn_end _ hs] at this
+    exact this
+  · have h := Parses.dep_yes (test := Tree.isSome) (Parses.recover (m := .silentAt) hi) (by simp [Tree.isSome, hs])
+      (sep_end rec c k hc)
+    have := Parses.map (fn := sepCtxFn) h
+    rw [sepCtxFn_end _ hs] at this
+    exact this
+
+theorem args_more (e : Ex) (cm : Tok) (rest : Args) (L : Nat) (item : G) (rec : Nat) (hΓ : Γ rec = sepListRec item rec)
+    (hitem : e.WF L → ∀ k, Stop 8 k → Parses item (e.toks ++ k) k e.tree) (hrest : ArgsOK rest L item rec) :
+    ArgsOK (.more e cm rest) L item rec := by
+  intro hwf c k hc
+  simp only [Args.WF] at hwf
+  obtain ⟨hwe, hcm, hne, hwr⟩ := hwf
+  have hr := (hrest hwr c k hc).1 hne
+  have hi := hitem hwe (cm :: (rest.toks ++ c :: k)) (stop8_closer cm _ (by rw [hcm]; decide))
+  have hs := e.tree_isSome
+  have htl := sep_more rec cm _ _ _ hcm hr
+  have htoks : Args.toks (.more e cm rest) ++ c :: k = e.toks ++ cm :: (rest.toks ++ c :: k) := by
+    simp [Args.toks, List.append_assoc]
+  rw [htoks]
+  show _ ∧ Parses _ _ _ (Tree.list (e.tree :: rest.trees))
+  constructor
+  · intro _
+    show Parses _ _ _ (Tree.list (e.tree :: rest.trees))
+    apply Parses.ref
+    rw [hΓ, sepListRec_def]
+    have h1 : Parses (.ifEof (.tok Kind.Comma) (.recover .span item)) (e.toks ++ cm :: (rest.toks ++ c :: k))
+        (cm :: (rest.toks ++ c :: k)) e.tree := by
+      obtain ⟨t, r, ht⟩ := cons_of_append e.toks cm (rest.toks ++ c :: k)
+      rw [ht] at hi ⊢
+      exact Parses.ifEof_cons (Parses.recover hi)
+    have := Parses.map (fn := sepRecFn) (Parses.seq h1 htl)
+    rw [sepRecFn_more _ _ _ hs] at this
+    exact this
+  · have h := Parses.dep_yes (test := Tree.isSome) (Parses.recover (m := .silentAt) hi) (by simp [Tree.isSome, hs]) htl
+    have := Parses.map (fn := sepCtxFn) h
+    rw [sepCtxFn_more _ _ _ hs] at this
+    exact this
+
+/-! ## member-access chains (`parse_dot_ops`) -/
+
+/-- an element of a chain, parsed by `parse_dot_op` -/
+def PE (e : Ex) : Prop := ∀ k, StopE k → Parses gDotOp (e.toks ++ k) k e.tree
+
+/-- continuation form for the dot level (as `P2` for the binary levels) -/
+def PD2 (e : Ex) : Prop :=
+  ∀ (items : List (Tree × Tree)) (rest k : List Tok), StopE rest →
+    Parses (.ref nDotTail) rest k (tailOf items) → (∀ p ∈ items, notCaught p.2) →
+    ∃ first items', Parses (.seq gDotOp (.ref nDotTail)) (e.toks ++ rest) k (Tree.seq [first, tailOf items']) ∧
+      (∀ p ∈ items', notCaught p.2) ∧ foldAll first items' = foldAll e.tree items
+
+def PD1 (e : Ex) : Prop := ∀ k, StopD k → Parses (.ref nDotOps) (e.toks ++ k) k e.tree
+
+/-- the expression starts with a token accepted as an identifier -/
+def First (e : Ex) : Prop := ∃ t r, e.toks = t :: r ∧ t.kind ∈ identKinds
+
+theorem dotTail_def : Γ nDotTail = binTail (toks dotKinds) (.catchErr gDotOp) nDotTail := rfl
+
+theorem dotTail_eps (k : List Tok) (hk : StopD k) : Parses (.ref nDotTail) k k (tailOf []) := by
+  apply Parses.ref
+  rw [dotTail_def]
+  exact Parses.alt2 (Fails.seq1 (hk.fails_toks _ dotKinds_badD)) Parses.eps
+
+theorem pd1_of_pd2 (e : Ex) (h : PD2 e) : PD1 e := by
+  intro k hk
+  obtain ⟨first, items', hp, hc, hf⟩ := h [] k k hk.stopE (dotTail_eps k hk) (by intro p hp; cases hp)
+  have := Parses.map (fn := fun v : Tree => foldBin (treeDepth v) (v.nth 0) (v.nth 1)) hp
+  rw [fold_value first items' hc, hf] at this
+  exact Parses.ref (n := nDotOps) this
+
+theorem pd2_of_pe (e : Ex) (h : PE e) : PD2 e := by
+  intro items rest k hrest htail hc
+  exact ⟨e.tree, items, Parses.seq (h rest hrest) htail, hc, rfl⟩
+
+theorem pd2_dot (l r : Ex) (d : Tok) (hd : d.kind ∈ dotKinds) (hl : PD2 l) (hr : PE r) : PD2 (.dot l d r) := by
+  intro items rest k hrest htail hc
+  have ⟨hde, hdc⟩ := dotKinds_table _ hd
+  have htail' : Parses (.ref nDotTail) (d :: (r.toks ++ rest)) k (tailOf ((.leaf d, r.tree) :: items)) := by
+    apply Parses.ref
+    rw [dotTail_def]
+    exact Parses.alt1 (Parses.seq (Parses.toks hd hdc) (Parses.seq (Parses.catchErr (hr rest hrest)) htail))
+  obtain ⟨first, items', hp, hc', hf⟩ := hl ((.leaf d, r.tree) :: items) (d :: (r.toks ++ rest)) k
+    (stopE_of_kind d _ hde) htail'
+    (by
+      intro p hp
+      cases hp with
+      | head => exact r.tree_notCaught
+      | tail _ hp => exact hc p hp)
+  refine ⟨first, items', ?_, hc', ?_⟩
+  · simpa [Ex.toks, List.append_assoc] using hp
+  · rw [hf]; rfl
 
 theorem parses_identifier (t : Tok) (k : List Tok) (h : t.kind ∈ identKinds) :
     Parses (.ref nIdentifier) (t :: k) k (terminal (.leaf t)) :=
   Parses.ref (n := nIdentifier) (Parses.map (fn := terminal) (Parses.toks h (ident_table _ h).2.1))
 
-theorem fails_identifier (t : Tok) (k : List Tok) (h : t.kind ∉ identKinds) (hc : t.kind ≠ Kind.Comment) :
-    Fails (.ref nIdentifier) (t :: k) :=
-  Fails.ref (n := nIdentifier) (Fails.map (fn := terminal) (Fails.toks h hc))
+/-- `parse_method_call` fails after the identifier when no `(` follows -/
+theorem fails_methodCall (t : Tok) (k : List Tok) (h : t.kind ∈ identKinds) (hk : Fails (.tok Kind.OBracket) k) :
+    Fails (.ref nMethodCall) (t :: k) :=
+  Fails.ref (n := nMethodCall) (Fails.memo (c := 2)
+    (Fails.map (Fails.seqL (pre := [.ref nIdentifier]) (ParsesList.cons (parses_identifier t k h) ParsesList.nil) hk)))
 
-theorem parses_dotops_ident (t : Tok) (k : List Tok) (h : t.kind ∈ identKinds) (hk : Stop 0 k) :
-    Parses (.ref nDotOps) (t :: k) k (terminal (.leaf t)) := by
+theorem pe_ident (t : Tok) (h : t.kind ∈ identKinds) : PE (.atom t) := by
+  intro k hk
   have hid := parses_identifier t k h
-  have hmc : Fails (.ref nMethodCall) (t :: k) :=
-    Fails.ref (n := nMethodCall) (Fails.memo (c := 2)
-      (Fails.map (Fails.seqL (pre := [.ref nIdentifier]) (ParsesList.cons hid ParsesList.nil)
-        (hk.fails_tok Kind.OBracket (atomCont_bad 0 _ (by decide +kernel))))))
+  have hmc := fails_methodCall t k h (hk.fails_tok Kind.OBracket (by decide))
   have haa : Fails gArrayAccess (t :: k) :=
     Fails.map (Fails.seqL (pre := [.ref nIdentifier]) (ParsesList.cons hid ParsesList.nil)
-      (hk.fails_tok Kind.OSqrBracket (atomCont_bad 0 _ (by decide +kernel))))
-  have hop : Parses gDotOp (t :: k) k (terminal (.leaf t)) :=
-    Parses.altL (pre := [.ref nMethodCall, gArrayAccess]) (post := [])
-      (by
-        intro a ha
-        simp only [List.mem_cons, List.not_mem_nil, or_false] at ha
-        rcases ha with rfl | rfl
-        · exact hmc
-        · exact haa) hid
-  have htl : Parses (.ref nDotTail) k k (tailOf []) :=
-    Parses.ref (n := nDotTail) (Parses.alt2
-      (Fails.seq1 (hk.fails_toks _ (fun x hx => atomCont_bad 0 x (by
-        simp only [atomCont, List.mem_append]; exact Or.inr hx))))
-      Parses.eps)
-  have := Parses.map (fn := fun v : Tree => foldBin (treeDepth v) (v.nth 0) (v.nth 1)) (Parses.seq hop htl)
-  rw [fold_value _ [] (by intro p hp; cases hp)] at this
-  exact Parses.ref (n := nDotOps) this
-
-theorem fails_dotops_literal (t : Tok) (k : List Tok) (h : t.kind ∈ literalKinds) :
-    Fails (.ref nDotOps) (t :: k) := by
-  have ⟨_, hc, _, hni⟩ := literal_table _ h
-  have hid := fails_identifier t k hni hc
-  have hmc : Fails (.ref nMethodCall) (t :: k) :=
-    Fails.ref (n := nMethodCall) (Fails.memo (c := 2)
-      (Fails.map (Fails.seqL (pre := []) ParsesList.nil hid)))
-  have haa : Fails gArrayAccess (t :: k) := Fails.map (Fails.seqL (pre := []) ParsesList.nil hid)
-  have hop : Fails gDotOp (t :: k) :=
-    Fails.altL (gs := [.ref nMethodCall, gArrayAccess, .ref nIdentifier]) (by
+      (hk.fails_tok Kind.OSqrBracket (by decide)))
+  exact Parses.altL (pre := [.ref nMethodCall, gArrayAccess]) (post := [])
+    (by
       intro a ha
       simp only [List.mem_cons, List.not_mem_nil, or_false] at ha
-      rcases ha with rfl | rfl | rfl
+      rcases ha with rfl | rfl
       · exact hmc
-      · exact haa
-      · exact hid)
-  exact Fails.ref (n := nDotOps) (Fails.map (Fails.seq1 hop))
+      · exact haa) hid
 
-/-- `parse_primary` on an atom -/
-theorem p1_atom (t : Tok) (h : atomOK t) : P1 (.atom t) 0 := by
+theorem pe_call (f lp rp : Tok) (as : Args) (hf : f.kind ∈ identKinds) (hl : lp.kind = Kind.OBracket)
+    (hr : rp.kind = Kind.CBracket)
+    (hargs : ∀ k, Parses (sepListCtx (.ref nExpr) nExprRec) (as.toks ++ rp :: k) (rp :: k) (Tree.list as.trees)) :
+    PE (.call f lp as rp) := by
+  intro k _
+  have hseq := Parses.seqL (ParsesList.cons (parses_identifier f (lp :: (as.toks ++ rp :: k)) hf)
+    (ParsesList.cons (Parses.tok (r := as.toks ++ rp :: k) hl)
+      (ParsesList.cons (hargs k) (ParsesList.cons (Parses.tok (r := k) hr) ParsesList.nil))))
+  have hb : Parses gMethodCallBody (f :: lp :: (as.toks ++ rp :: k)) k
+      (callNode (terminal (.leaf f)) (.leaf rp) as.trees) :=
+    Parses.map (fn := fun v =>
+      let id := v.nth 0
+      mk "method_call" id.ident (Range.span id.rng (v.nth 3).rng) (v.nth 2).kids) hseq
+  have hm : Parses (.ref nMethodCall) (f :: lp :: (as.toks ++ rp :: k)) k
+      (callNode (terminal (.leaf f)) (.leaf rp) as.trees) :=
+    Parses.ref (n := nMethodCall) (Parses.memo (c := 2) hb)
+  have : Parses gDotOp (f :: lp :: (as.toks ++ rp :: k)) k (callNode (terminal (.leaf f)) (.leaf rp) as.trees) :=
+    Parses.altL (pre := []) (post := [gArrayAccess, .ref nIdentifier]) (by intro a ha; cases ha) hm
+  simpa [Ex.toks, Ex.tree, List.append_assoc] using this
+
+theorem pe_index (a lb rb : Tok) (e : Ex) (ha : a.kind ∈ identKinds) (hl : lb.kind = Kind.OSqrBracket)
+    (hr : rb.kind = Kind.CSqrBracket) (he : P1 e 8) : PE (.index a lb e rb) := by
+  intro k _
+  have hin : Parses (.ref nExpr) (e.toks ++ rb :: k) (rb :: k) e.tree :=
+    Parses.ref (n := nExpr) (Parses.memo (c := 1) (he (rb :: k) (stop8_closer rb k (by rw [hr]; decide))))
+  have hseq := Parses.seqL (ParsesList.cons (parses_identifier a (lb :: (e.toks ++ rb :: k)) ha)
+    (ParsesList.cons (Parses.tok (r := e.toks ++ rb :: k) hl)
+      (ParsesList.cons hin (ParsesList.cons (Parses.tok (r := k) hr) ParsesList.nil))))
+  have hb : Parses gArrayAccess (a :: lb :: (e.toks ++ rb :: k)) k
+      (indexNode (terminal (.leaf a)) e.tree (.leaf rb)) :=
+    Parses.map (fn := fun v =>
+      let id := v.nth 0
+      mk "array_access" id.ident (Range.span id.rng (v.nth 3).rng) [id, v.nth 2]) hseq
+  have hmc : Fails (.ref nMethodCall) (a :: lb :: (e.toks ++ rb :: k)) :=
+    fails_methodCall a _ ha (Fails.tok (by rw [hl]; decide) (by rw [hl]; decide))
+  have : Parses gDotOp (a :: lb :: (e.toks ++ rb :: k)) k (indexNode (terminal (.leaf a)) e.tree (.leaf rb)) :=
+    Parses.altL (pre := [.ref nMethodCall]) (post := [.ref nIdentifier])
+      (by
+        intro x hx
+        simp only [List.mem_cons, List.not_mem_nil, or_false] at hx
+        subst hx
+        exact hmc) hb
+  simpa [Ex.toks, Ex.tree, List.append_assoc] using this
+
+/-! ## primaries -/
+
+/-- `parse_primary` on a chain: `( … )` and the prefix operators do not apply, `++`/`--` does not follow -/
+theorem p1_chain (e : Ex) (hfirst : First e) (h : PD1 e) : P1 e 0 := by
   intro k hk
-  show Parses (.ref nPrimary) (t :: k) k (terminal (.leaf t))
+  obtain ⟨t, r, ht, hti⟩ := hfirst
+  have ⟨hb, hc, hu⟩ := ident_table _ hti
+  have hdot := h k hk.stopD
+  have hpost : Fails gUnaryPost (e.toks ++ k) :=
+    Fails.map (Fails.seqL (pre := [.ref nDotOps]) (ParsesList.cons hdot ParsesList.nil)
+      (hk.fails_toks postKinds postKinds_bad0))
   apply Parses.ref (n := nPrimary)
   apply Parses.memo (c := 0)
-  rcases h with h | h
-  · have ⟨hb, hc, hu⟩ := ident_table _ h
-    have hdot := parses_dotops_ident t k h hk
-    have hpost : Fails gUnaryPost (t :: k) :=
-      Fails.map (Fails.seqL (pre := [.ref nDotOps]) (ParsesList.cons hdot ParsesList.nil)
-        (hk.fails_toks [Kind.Increment, Kind.Decrement] (fun x hx => atomCont_bad 0 x (by
-          simp only [List.mem_cons, List.not_mem_nil, or_false] at hx
-          rcases hx with rfl | rfl <;> decide +kernel))))
-    exact Parses.altL (pre := [gBracketClosure, .alt gUnaryPre gUnaryPost]) (post := [gLiterals])
-      (by
-        intro a ha
-        simp only [List.mem_cons, List.not_mem_nil, or_false] at ha
-        rcases ha with rfl | rfl
-        · exact fails_bracket t k hb hc
-        · exact Fails.alt (fails_unaryPre t k hu hc) hpost) hdot
-  · have ⟨hb, hc, hu, _⟩ := literal_table _ h
-    have hdot := fails_dotops_literal t k h
-    have hpost : Fails gUnaryPost (t :: k) := Fails.map (Fails.seqL (pre := []) ParsesList.nil hdot)
-    have hlit : Parses gLiterals (t :: k) k (terminal (.leaf t)) :=
-      Parses.alt1 (Parses.ref (n := nLiteralBasic) (Parses.map (fn := terminal) (Parses.toks h hc)))
-    exact Parses.altL (pre := [gBracketClosure, .alt gUnaryPre gUnaryPost, .ref nDotOps]) (post := [])
-      (by
-        intro a ha
-        simp only [List.mem_cons, List.not_mem_nil, or_false] at ha
-        rcases ha with rfl | rfl | rfl
-        · exact fails_bracket t k hb hc
-        · exact Fails.alt (fails_unaryPre t k hu hc) hpost
-        · exact hdot) hlit
+  refine Parses.altL (pre := [gBracketClosure, .alt gUnaryPre gUnaryPost]) (post := [gLiterals]) ?_ hdot
+  intro a ha
+  simp only [List.mem_cons, List.not_mem_nil, or_false] at ha
+  rcases ha with rfl | rfl
+  · rw [ht]; exact (failsAt_bracket t (r ++ k) hb hc).fails
+  · refine Fails.alt ?_ hpost
+    rw [ht]; exact (failsAt_unaryPre t (r ++ k) hu hc).fails
+
+/-- `parse_primary` on a chain followed by `++` / `--` -/
+theorem p1_post (e : Ex) (op : Tok) (hop : op.kind ∈ postKinds) (hfirst : First e) (h : PD1 e) : P1 (.post e op) 0 := by
+  intro k _
+  obtain ⟨t, r, ht, hti⟩ := hfirst
+  have ⟨hb, hc, hu⟩ := ident_table _ hti
+  have ⟨hod, hoc⟩ := postKinds_table _ hop
+  have hdot := h (op :: k) (stopD_of_kind op k hod)
+  have hseq := Parses.seqL (ParsesList.cons hdot (ParsesList.cons (Parses.toks (r := k) hop hoc) ParsesList.nil))
+  have hpost : Parses gUnaryPost (e.toks ++ op :: k) k (unaryPostNode e.tree (.leaf op)) :=
+    Parses.map (fn := fun v =>
+      let e := v.nth 0; let op := v.nth 1
+      mk "unary_op" op.ident (Range.span e.rng op.rng) [e] ["op=" ++ op.kind]) hseq
+  have hp : Parses (.ref nPrimary) (e.toks ++ op :: k) k (unaryPostNode e.tree (.leaf op)) := by
+    apply Parses.ref (n := nPrimary)
+    apply Parses.memo (c := 0)
+    refine Parses.altL (pre := [gBracketClosure]) (post := [.ref nDotOps, gLiterals]) ?_ (Parses.alt2 ?_ hpost)
+    · intro a ha
+      simp only [List.mem_cons, List.not_mem_nil, or_false] at ha
+      subst ha
+      rw [ht]; exact (failsAt_bracket t (r ++ op :: k) hb hc).fails
+    · rw [ht]; exact (failsAt_unaryPre t (r ++ op :: k) hu hc).fails
+  simpa [Ex.toks, Ex.tree, lvG, List.append_assoc] using hp
+
+/-- `parse_primary` on a prefix operator applied to a primary -/
+theorem p1_pre (op : Tok) (e : Ex) (hop : op.kind ∈ unaryPre) (h : P1 e 0) : P1 (.pre op e) 0 := by
+  intro k hk
+  have ⟨hb, hc⟩ := unaryPre_table _ hop
+  have hseq := Parses.seqL (ParsesList.cons (Parses.toks (r := e.toks ++ k) hop hc)
+    (ParsesList.cons (h k hk) ParsesList.nil))
+  have hpre : Parses gUnaryPre (op :: (e.toks ++ k)) k (unaryPreNode (.leaf op) e.tree) :=
+    Parses.map (fn := fun v =>
+      let op := v.nth 0; let e := v.nth 1
+      mk "unary_op" op.ident (Range.span op.rng e.rng) [e] ["op=" ++ op.kind]) hseq
+  have hp : Parses (.ref nPrimary) (op :: (e.toks ++ k)) k (unaryPreNode (.leaf op) e.tree) := by
+    apply Parses.ref (n := nPrimary)
+    apply Parses.memo (c := 0)
+    refine Parses.altL (pre := [gBracketClosure]) (post := [.ref nDotOps, gLiterals]) ?_ (Parses.alt1 hpre)
+    intro a ha
+    simp only [List.mem_cons, List.not_mem_nil, or_false] at ha
+    subst ha
+    exact (failsAt_bracket op (e.toks ++ k) hb hc).fails
+  simpa [Ex.toks, Ex.tree, lvG] using hp
+
+theorem osqr_table : Kind.OSqrBracket ≠ Kind.OBracket ∧ Kind.OSqrBracket ≠ Kind.Comment ∧ Kind.OSqrBracket ∉ unaryPre ∧
+    Kind.OSqrBracket ∉ identKinds ∧ Kind.OSqrBracket ∉ literalKinds := by decide +kernel
+
+/-- `parse_primary` on a set literal -/
+theorem p1_set (lb rb : Tok) (as : Args) (hl : lb.kind = Kind.OSqrBracket) (hr : rb.kind = Kind.CSqrBracket)
+    (hargs : ∀ k, Parses (sepListCtx (.ref nPrimary) nPrimaryRec) (as.toks ++ rb :: k) (rb :: k) (Tree.list as.trees)) :
+    P1 (.set lb as rb) 0 := by
+  intro k _
+  obtain ⟨hb, hc, hu, hi, hlit⟩ := osqr_table
+  rw [← hl] at hb hc hu hi hlit
+  have hseq := Parses.seqL (ParsesList.cons (Parses.tok (r := as.toks ++ rb :: k) hl)
+    (ParsesList.cons (hargs k) (ParsesList.cons (Parses.tok (r := k) hr) ParsesList.nil)))
+  have hset : Parses gLiteralSet (lb :: (as.toks ++ rb :: k)) k (setNode (.leaf lb) (.leaf rb) as.trees) :=
+    Parses.map (fn := fun v => mk "set_literal" "set_literal" (Range.span (v.nth 0).rng (v.nth 2).rng) (v.nth 1).kids) hseq
+  have hp : Parses (.ref nPrimary) (lb :: (as.toks ++ rb :: k)) k (setNode (.leaf lb) (.leaf rb) as.trees) := by
+    apply Parses.ref (n := nPrimary)
+    apply Parses.memo (c := 0)
+    refine Parses.altL (pre := [gBracketClosure, .alt gUnaryPre gUnaryPost, .ref nDotOps]) (post := []) ?_
+      (Parses.alt2 (failsAt_literalBasic lb _ hlit hc).fails hset)
+    intro a ha
+    simp only [List.mem_cons, List.not_mem_nil, or_false] at ha
+    rcases ha with rfl | rfl | rfl
+    · exact (failsAt_bracket lb _ hb hc).fails
+    · exact Fails.alt (failsAt_unaryPre lb _ hu hc).fails (failsAt_unaryPost lb _ hi hc).fails
+    · exact (failsAt_dotOps lb _ hi hc).fails
+  simpa [Ex.toks, Ex.tree, lvG, List.append_assoc] using hp
+
+/-- `parse_primary` on a literal -/
+theorem p1_literal (t : Tok) (h : t.kind ∈ literalKinds) : P1 (.atom t) 0 := by
+  intro k _
+  have ⟨hb, hc, hu, hi⟩ := literal_table _ h
+  have hlit : Parses gLiterals (t :: k) k (terminal (.leaf t)) :=
+    Parses.alt1 (Parses.ref (n := nLiteralBasic) (Parses.map (fn := terminal) (Parses.toks h hc)))
+  apply Parses.ref (n := nPrimary)
+  apply Parses.memo (c := 0)
+  refine Parses.altL (pre := [gBracketClosure, .alt gUnaryPre gUnaryPost, .ref nDotOps]) (post := []) ?_ hlit
+  intro a ha
+  simp only [List.mem_cons, List.not_mem_nil, or_false] at ha
+  rcases ha with rfl | rfl | rfl
+  · exact (failsAt_bracket t k hb hc).fails
+  · exact Fails.alt (failsAt_unaryPre t k hu hc).fails (failsAt_unaryPost t k hi hc).fails
+  · exact (failsAt_dotOps t k hi hc).fails
 
 /-- `parse_primary` on a parenthesised expression -/
 theorem p1_paren (lp rp : Tok) (e : Ex) (hl : lp.kind = Kind.OBracket) (hr : rp.kind = Kind.CBracket)
@@ -338,59 +766,221 @@ theorem p1_paren (lp rp : Tok) (e : Ex) (hl : lp.kind = Kind.OBracket) (hr : rp.
 
 /-! ## assembly -/
 
+/-- the binary levels -/
+def InvL (e : Ex) : Prop := ∀ L, L ≤ 8 → e.WF L → P1 e L ∧ (1 ≤ L → P2 e L)
+
+/-- what the induction carries for every expression: the levels, and — when the expression is an
+    element / a chain — its parse by `parse_dot_op` / in continuation form by `parse_dot_ops` -/
+structure Inv (e : Ex) : Prop where
+  lv : InvL e
+  elem : e.WF 0 → e.isElem = true → PE e
+  chain : e.WF 0 → e.isChain = true → PD2 e ∧ First e
+
+structure InvA (as : Args) : Prop where
+  expr : ArgsOK as 8 (.ref nExpr) nExprRec
+  prim : ArgsOK as 0 (.ref nPrimary) nPrimaryRec
+
+theorem invL_of_primary (e : Ex) (hwf : ∀ L, e.WF L → e.WF 0) (h : e.WF 0 → P1 e 0) : InvL e :=
+  fun L h8 hw => lift_levels e (h (hwf L hw)) L h8
+
+theorem inv_atom (t : Tok) : Inv (.atom t) := by
+  have pe : t.kind ∈ identKinds → PE (.atom t) := pe_ident t
+  have first : t.kind ∈ identKinds → First (.atom t) := fun h => ⟨t, [], rfl, h⟩
+  refine ⟨invL_of_primary _ (fun _ h => h) ?_, ?_, ?_⟩
+  · intro h
+    rcases h with h | h
+    · exact p1_chain _ (first h) (pd1_of_pd2 _ (pd2_of_pe _ (pe h)))
+    · exact p1_literal t h
+  · intro _ he
+    exact pe (by simpa [Ex.isElem] using he)
+  · intro _ hc
+    have hi : t.kind ∈ identKinds := by simpa [Ex.isChain, Ex.isElem] using hc
+    exact ⟨pd2_of_pe _ (pe hi), first hi⟩
+
+theorem inv_paren (lp rp : Tok) (e : Ex) (ih : Inv e) : Inv (.paren lp e rp) := by
+  refine ⟨invL_of_primary _ (fun _ h => h) ?_, ?_, ?_⟩
+  · intro h
+    simp only [Ex.WF] at h
+    exact p1_paren lp rp e h.1 h.2.1 (ih.lv 8 (Nat.le_refl 8) h.2.2).1
+  · intro _ he; simp [Ex.isElem] at he
+  · intro _ hc; simp [Ex.isChain, Ex.isElem] at hc
+
 theorem wf_lower (l r : Ex) (op : Tok) (L : Nat) (h : (Ex.bin l op r).WF (L+1)) (hne : opLevel op.kind ≠ L+1) :
     (Ex.bin l op r).WF L := by
   simp only [Ex.WF] at h ⊢
   exact ⟨h.1, by omega, h.2.2⟩
 
-theorem levels (e : Ex) : ∀ L, L ≤ 8 → e.WF L → P1 e L ∧ (1 ≤ L → P2 e L) := by
-  induction e with
-  | atom t =>
-    intro L
-    induction L with
-    | zero => intro _ h; exact ⟨p1_atom t h, by omega⟩
-    | succ L ih =>
-      intro h8 h
-      have h2 := p2_of_lower (.atom t) (L+1) (by omega) h8 (ih (by omega) h).1
-      exact ⟨p1_of_p2 _ _ (by omega) h8 h2, fun _ => h2⟩
-  | paren lp e rp ihe =>
-    intro L
-    induction L with
-    | zero => intro _ h; exact ⟨p1_paren lp rp e h.1 h.2.1 (ihe 8 (by omega) h.2.2).1, by omega⟩
-    | succ L ih =>
-      intro h8 h
-      have h2 := p2_of_lower (.paren lp e rp) (L+1) (by omega) h8 (ih (by omega) h).1
-      exact ⟨p1_of_p2 _ _ (by omega) h8 h2, fun _ => h2⟩
-  | bin l op r ihl ihr =>
-    intro L
-    induction L with
-    | zero => intro _ h; simp only [Ex.WF] at h; omega
-    | succ L ih =>
-      intro h8 h
-      have h2 : P2 (.bin l op r) (L+1) := by
-        by_cases hm : opLevel op.kind = L+1
-        · have hw := h
-          simp only [Ex.WF] at hw
-          rw [hm] at hw
-          have hop : op.kind ∈ lvOps (L+1) := by
-            have := opLevel_mem op.kind (by omega)
-            rwa [hm] at this
-          exact p2_bin l r op (L+1) (by omega) h8 hop
-            ((ihl (L+1) h8 hw.2.2.1).2 (by omega))
-            ((ihr (L+1-1) (by omega) hw.2.2.2).1)
-        · exact p2_of_lower _ (L+1) (by omega) h8 (ih (by omega) (wf_lower l r op L h hm)).1
-      exact ⟨p1_of_p2 _ _ (by omega) h8 h2, fun _ => h2⟩
+theorem invL_bin (l r : Ex) (op : Tok) (ihl : InvL l) (ihr : InvL r) : InvL (.bin l op r) := by
+  intro L
+  induction L with
+  | zero => intro _ h; simp only [Ex.WF] at h; omega
+  | succ L ih =>
+    intro h8 h
+    have h2 : P2 (.bin l op r) (L+1) := by
+      by_cases hm : opLevel op.kind = L+1
+      · have hw := h
+        simp only [Ex.WF] at hw
+        rw [hm] at hw
+        have hop : op.kind ∈ lvOps (L+1) := by
+          have := opLevel_mem op.kind (by omega)
+          rwa [hm] at this
+        exact p2_bin l r op (L+1) (by omega) h8 hop
+          ((ihl (L+1) h8 hw.2.2.1).2 (by omega))
+          ((ihr (L+1-1) (by omega) hw.2.2.2).1)
+      · exact p2_of_lower _ (L+1) (by omega) h8 (ih (by omega) (wf_lower l r op L h hm)).1
+    exact ⟨p1_of_p2 _ _ (by omega) h8 h2, fun _ => h2⟩
+
+theorem inv_bin (l r : Ex) (op : Tok) (ihl : Inv l) (ihr : Inv r) : Inv (.bin l op r) := by
+  refine ⟨invL_bin l r op ihl.lv ihr.lv, ?_, ?_⟩
+  · intro _ he; simp [Ex.isElem] at he
+  · intro _ hc; simp [Ex.isChain, Ex.isElem] at hc
+
+theorem inv_pre (op : Tok) (e : Ex) (ih : Inv e) : Inv (.pre op e) := by
+  refine ⟨invL_of_primary _ (fun _ h => h) ?_, ?_, ?_⟩
+  · intro h
+    simp only [Ex.WF] at h
+    exact p1_pre op e h.1 (ih.lv 0 (by omega) h.2).1
+  · intro _ he; simp [Ex.isElem] at he
+  · intro _ hc; simp [Ex.isChain, Ex.isElem] at hc
+
+theorem inv_post (e : Ex) (op : Tok) (ih : Inv e) : Inv (.post e op) := by
+  refine ⟨invL_of_primary _ (fun _ h => h) ?_, ?_, ?_⟩
+  · intro h
+    simp only [Ex.WF] at h
+    have ⟨h2, hf⟩ := ih.chain h.2.2 h.2.1
+    exact p1_post e op h.1 hf (pd1_of_pd2 _ h2)
+  · intro _ he; simp [Ex.isElem] at he
+  · intro _ hc; simp [Ex.isChain, Ex.isElem] at hc
+
+theorem inv_dot (l r : Ex) (d : Tok) (ihl : Inv l) (ihr : Inv r) : Inv (.dot l d r) := by
+  have key : (Ex.dot l d r).WF 0 → PD2 (.dot l d r) ∧ First (.dot l d r) := by
+    intro h
+    simp only [Ex.WF] at h
+    obtain ⟨hd, hlc, hre, hlw, hrw⟩ := h
+    have ⟨h2, t, r', ht, hti⟩ := ihl.chain hlw hlc
+    refine ⟨pd2_dot l r d hd h2 (ihr.elem hrw hre), t, r' ++ d :: r.toks, ?_, hti⟩
+    simp [Ex.toks, ht]
+  refine ⟨invL_of_primary _ (fun _ h => h) ?_, ?_, ?_⟩
+  · intro h
+    have ⟨h2, hf⟩ := key h
+    exact p1_chain _ hf (pd1_of_pd2 _ h2)
+  · intro _ he; simp [Ex.isElem] at he
+  · intro h _; exact key h
+
+theorem inv_call (f lp rp : Tok) (as : Args) (ih : InvA as) : Inv (.call f lp as rp) := by
+  have pe : (Ex.call f lp as rp).WF 0 → PE (.call f lp as rp) := by
+    intro h
+    simp only [Ex.WF] at h
+    obtain ⟨hf, hl, hr, hw⟩ := h
+    exact pe_call f lp rp as hf hl hr (fun k => (ih.expr hw rp k (Or.inl hr)).2)
+  have first : (Ex.call f lp as rp).WF 0 → First (.call f lp as rp) := by
+    intro h
+    simp only [Ex.WF] at h
+    exact ⟨f, _, rfl, h.1⟩
+  refine ⟨invL_of_primary _ (fun _ h => h) ?_, ?_, ?_⟩
+  · intro h
+    exact p1_chain _ (first h) (pd1_of_pd2 _ (pd2_of_pe _ (pe h)))
+  · intro h _; exact pe h
+  · intro h _; exact ⟨pd2_of_pe _ (pe h), first h⟩
+
+theorem inv_index (a lb rb : Tok) (e : Ex) (ih : Inv e) : Inv (.index a lb e rb) := by
+  have pe : (Ex.index a lb e rb).WF 0 → PE (.index a lb e rb) := by
+    intro h
+    simp only [Ex.WF] at h
+    obtain ⟨ha, hl, hr, hw⟩ := h
+    exact pe_index a lb rb e ha hl hr (ih.lv 8 (Nat.le_refl 8) hw).1
+  have first : (Ex.index a lb e rb).WF 0 → First (.index a lb e rb) := by
+    intro h
+    simp only [Ex.WF] at h
+    exact ⟨a, _, rfl, h.1⟩
+  refine ⟨invL_of_primary _ (fun _ h => h) ?_, ?_, ?_⟩
+  · intro h
+    exact p1_chain _ (first h) (pd1_of_pd2 _ (pd2_of_pe _ (pe h)))
+  · intro h _; exact pe h
+  · intro h _; exact ⟨pd2_of_pe _ (pe h), first h⟩
+
+theorem inv_set (lb rb : Tok) (as : Args) (ih : InvA as) : Inv (.set lb as rb) := by
+  refine ⟨invL_of_primary _ (fun _ h => h) ?_, ?_, ?_⟩
+  · intro h
+    simp only [Ex.WF] at h
+    obtain ⟨hl, hr, hw⟩ := h
+    exact p1_set lb rb as hl hr (fun k => (ih.prim hw rb k (Or.inr hr)).2)
+  · intro _ he; simp [Ex.isElem] at he
+  · intro _ hc; simp [Ex.isChain, Ex.isElem] at hc
+
+theorem exprRec_def : Γ nExprRec = sepListRec (.ref nExpr) nExprRec := rfl
+theorem primaryRec_def : Γ nPrimaryRec = sepListRec (.ref nPrimary) nPrimaryRec := rfl
+
+theorem item_expr (e : Ex) (ih : Inv e) : e.WF 8 → ∀ k, Stop 8 k → Parses (.ref nExpr) (e.toks ++ k) k e.tree :=
+  fun hw k hk => Parses.ref (n := nExpr) (Parses.memo (c := 1) ((ih.lv 8 (Nat.le_refl 8) hw).1 k hk))
+
+theorem item_primary (e : Ex) (ih : Inv e) : e.WF 0 → ∀ k, Stop 8 k → Parses (.ref nPrimary) (e.toks ++ k) k e.tree :=
+  fun hw k hk => (ih.lv 0 (by omega) hw).1 k (stop_le (by omega) hk)
+
+theorem inva_nil : InvA .nil :=
+  ⟨args_nil 8 _ _ (fun c k hc => failsAt_expr c k (closer_noStart _ hc.mem).1),
+   args_nil 0 _ _ (fun c k hc => failsAt_primary c k (closer_noStart _ hc.mem).1)⟩
+
+theorem inva_one (e : Ex) (ih : Inv e) : InvA (.one e) :=
+  ⟨args_one e 8 _ _ exprRec_def (item_expr e ih), args_one e 0 _ _ primaryRec_def (item_primary e ih)⟩
+
+theorem inva_more (e : Ex) (cm : Tok) (rest : Args) (ih : Inv e) (ihr : InvA rest) : InvA (.more e cm rest) :=
+  ⟨args_more e cm rest 8 _ _ exprRec_def (item_expr e ih) ihr.expr,
+   args_more e cm rest 0 _ _ primaryRec_def (item_primary e ih) ihr.prim⟩
+
+mutual
+/-- the induction over the abstract syntax (mutual with argument lists) -/
+theorem invEx : (e : Ex) → Inv e
+  | .atom t => inv_atom t
+  | .paren lp e rp => inv_paren lp rp e (invEx e)
+  | .bin l op r => inv_bin l r op (invEx l) (invEx r)
+  | .pre op e => inv_pre op e (invEx e)
+  | .post e op => inv_post e op (invEx e)
+  | .dot l d r => inv_dot l r d (invEx l) (invEx r)
+  | .call f lp as rp => inv_call f lp rp as (invArgs as)
+  | .index a lb e rb => inv_index a lb rb e (invEx e)
+  | .set lb as rb => inv_set lb rb as (invArgs as)
+theorem invArgs : (as : Args) → InvA as
+  | .nil => inva_nil
+  | .one e => inva_one e (invEx e)
+  | .more e cm rest => inva_more e cm rest (invEx e) (invArgs rest)
+end
+
+theorem levels (e : Ex) : ∀ L, L ≤ 8 → e.WF L → P1 e L ∧ (1 ≤ L → P2 e L) := (invEx e).lv
 
 /-! ## the executable well-formedness test is the predicate -/
 
 theorem atomOKb_iff (t : Tok) : atomOKb t = true ↔ atomOK t := by
-  simp [atomOKb, atomOK, List.contains_iff_mem]
+  simp [atomOKb, atomOK]
 
-theorem wfb_iff (e : Ex) : ∀ L, e.wfb L = true ↔ e.WF L := by
-  induction e with
-  | atom t => intro L; simp only [Ex.wfb, Ex.WF]; exact atomOKb_iff t
-  | paren lp e rp ih => intro L; simp [Ex.wfb, Ex.WF, ih 8, and_assoc]
-  | bin l op r ihl ihr => intro L; simp [Ex.wfb, Ex.WF, ihl, ihr, and_assoc]
+mutual
+theorem wfb_iff : (e : Ex) → ∀ L, e.wfb L = true ↔ e.WF L
+  | .atom t => by intro L; simp only [Ex.wfb, Ex.WF]; exact atomOKb_iff t
+  | .paren lp e rp => by intro L; have ih := wfb_iff e 8; simp [Ex.wfb, Ex.WF, ih, and_assoc]
+  | .bin l op r => by
+    intro L
+    have ihl := wfb_iff l (opLevel op.kind)
+    have ihr := wfb_iff r (opLevel op.kind - 1)
+    simp [Ex.wfb, Ex.WF, ihl, ihr, and_assoc]
+  | .pre op e => by intro L; have ih := wfb_iff e 0; simp [Ex.wfb, Ex.WF, ih]
+  | .post e op => by intro L; have ih := wfb_iff e 0; simp [Ex.wfb, Ex.WF, ih, and_assoc]
+  | .dot l d r => by
+    intro L
+    have ihl := wfb_iff l 0
+    have ihr := wfb_iff r 0
+    simp [Ex.wfb, Ex.WF, ihl, ihr, and_assoc]
+  | .call f lp as rp => by intro L; have ih := wfbA_iff as 8; simp [Ex.wfb, Ex.WF, ih, and_assoc]
+  | .index a lb e rb => by intro L; have ih := wfb_iff e 8; simp [Ex.wfb, Ex.WF, ih, and_assoc]
+  | .set lb as rb => by intro L; have ih := wfbA_iff as 0; simp [Ex.wfb, Ex.WF, ih, and_assoc]
+theorem wfbA_iff : (as : Args) → ∀ L, as.wfb L = true ↔ as.WF L
+  | .nil => by intro L; simp [Args.wfb, Args.WF]
+  | .one e => by intro L; have ih := wfb_iff e L; simp [Args.wfb, Args.WF, ih]
+  | .more e c rest => by
+    intro L
+    have ih := wfb_iff e L
+    have ihr := wfbA_iff rest L
+    simp [Args.wfb, Args.WF, ih, ihr, and_assoc]
+end
 
 theorem stopB_iff (L : Nat) (k : List Tok) : stopB L k = true ↔ Stop L k := by
   cases k with
